@@ -136,7 +136,7 @@ func RunC03TypedMirror(ctx *core.Ctx) {
 	ncases := ctx.Scale(8, 80)
 	var wg sync.WaitGroup
 	sem := make(chan struct{}, 16)
-	for _, e := range gen.Catalog {
+	for _, e := range c03Types() {
 		var tsb strings.Builder
 		if e.Type.Kind() != reflect.Struct || !c03TNode(e.Schema, e.Type, false, &tsb) {
 			ctx.Hist("typedmirror-type", "outside the wrapper grammar of the model")
